@@ -1,8 +1,11 @@
 """C01 — the interpolant reproduces the loaded model values at every loaded point.
 
 Theorems: coq/Props/Properties_C01.v — generic hierarchical interpolation over any commutative ring reproduces its nodal
-values (hier_reproduces), the Local Polynomial instance for every grid that passes the decidable certificate hier_cert
-(evaluated by the extracted model on every implementation grid), value association over all histories (from C07).
+values (hier_reproduces); the Local Polynomial instance UNBOUNDED: every well-formed parent-complete point set of every binary
+rule, order and dimension reproduces (c01_localpoly_complete_unbounded), every grid of makeLocalPolynomialGrid is such a set
+(c01_standard_grids_unbounded, the model of the point set is compared with the implementation's points); the decidable certificate
+hier_cert for any other point set (evaluated by the extracted model on every implementation grid); Sequence grids for every index
+set and node sequence; value association over all histories (from C07).
 Ties: exact surpluses / evaluation of the extracted model (rationals) vs getHierarchicalCoefficients / evaluate of the
 implementation on the same indexes and values.  Direct evaluation: evaluate / evaluateBatch / evaluateFast at every
 loaded point vs the loaded values, all five families, after load / refinement / construction histories."""
@@ -21,8 +24,8 @@ TRUSTED = [
     "OCaml glue ocaml/corefast_main.ml, Python orchestration, C++ driver harness/tsgdrv.cpp",
     "modelled, not verified: GridLocalPolynomial surplus computation (ancestor walk; the Kronecker path for d>=3 is tied numerically only), "
     "RuleLocal basis functions; Global/Sequence/Wavelet/Fourier mechanisms are NOT modelled: for them only the statement is evaluated on the implementation",
-    "the hypotheses of the reproduction theorem (unit diagonal, zero outside the visited ancestors, topological order) are not proved for all grids: "
-    "they are CHECKED by the extracted certificate on every grid the run visits",
+    "the hypotheses of the reproduction theorem (unit diagonal, zero outside the visited ancestors, topological order) are PROVED for every parent-complete "
+    "set of the binary rules (all orders, dimensions); for incomplete sets and the order-0 rule they are checked by the extracted certificate on every grid the run visits",
 ]
 
 TOL = {"global": 1e-9, "sequence": 1e-9, "localp": 1e-11, "wavelet": 1e-8, "fourier": 1e-9}
@@ -182,7 +185,7 @@ def run(res, tier, seed, replay_script=None):
 
     stats = {"states": 0, "skipped_incomplete": 0, "violations": 0, "max_err": {}, "local_grids": 0}
     lg_lines, lg_meta = [], {}
-    sq_lines = []
+    sq_lines, sg_lines, sgres = [], [], {}
     fam_count, nontrivial = {}, 0
     for cid, steps in cases.items():
         spec = specs[cid]
@@ -198,6 +201,14 @@ def run(res, tier, seed, replay_script=None):
                               {"kind": "impl-counterexample", "script": scripts[cid]})
                 stats["violations"] += 1
                 break
+            if t[0] == "dump" and "meta" in st.obs and fam == "localp" and "sg_done" not in spec:
+                # the point set of a fresh makeLocalPolynomialGrid (no level limits) vs Model.StdGrid.std_grid (proved complete for all d, depth)
+                spec["sg_done"] = True
+                mk = scripts[cid][1].split()
+                before = scripts[cid][2:scripts[cid].index(st.cmd)] if st.cmd in scripts[cid] else ["?"]
+                if "ll:" not in mk and all(l.split()[0] in ("trans", "load", "conformal") for l in before) and st.obs.get("pidx") is not None \
+                        and int(st.obs["meta"]["points"]) <= 20000:
+                    sg_lines.append("sg %s %s %s %s pidx: %s" % (cid, RULE_MAP[spec["rule"]], mk[3], mk[5], " ".join(map(str, st.obs["pidx"]))))
             if t[0] == "dump" and "meta" in st.obs:
                 cur = {"pidx": st.obs.get("pidx", []), "values": st.obs.get("values", []), "coef": st.obs.get("coef", []),
                        "n": int(st.obs["meta"]["loaded"]), "step": si, "points": st.obs.get("points", []),
@@ -272,9 +283,9 @@ def run(res, tier, seed, replay_script=None):
     mism = []
     lgres = {}
     sqres = {}
-    if runner and (lg_lines or sq_lines):
+    if runner and (lg_lines or sq_lines or sg_lines):
         lf = os.path.join(wd, "local.txt")
-        open(lf, "w").write("\n".join(lg_lines + sq_lines) + "\n")
+        open(lf, "w").write("\n".join(sg_lines + lg_lines + sq_lines) + "\n")
         rc2, mo, me = vlib.run([runner, lf], timeout=1500)
         for line in mo.split("\n"):
             t = line.split()
@@ -284,6 +295,8 @@ def run(res, tier, seed, replay_script=None):
                 lgres[t[1]] = dict(x.split("=") for x in t[2:])
             elif t[0] == "sq":
                 sqres[t[1]] = dict(x.split("=") for x in t[2:])
+            elif t[0] == "sg":
+                sgres[t[1]] = dict(x.split("=") for x in t[2:])
             elif t[0] == "MISMATCH":
                 mism.append(line[:300])
         if rc2 != 0:
@@ -323,6 +336,10 @@ def run(res, tier, seed, replay_script=None):
                 res.violation("not-reproduced:localp:" + tag, "%s differs from the loaded values by %.3g at a loaded point of a parent-complete grid [%s]" % (tag, err, scripts[cid][1]),
                               {"kind": "impl-counterexample", "script": scripts[cid], "error": err})
                 break
+    for gid, rr in sgres.items():
+        stats["standard_grids"] = stats.get("standard_grids", 0) + 1
+        if rr.get("same") != "true":
+            mism.append("the point set of %s differs from Model.StdGrid.std_grid (%s model points)" % (scripts[gid][1], rr.get("n")))
     for sid, rr in sqres.items():
         ce, ne = float.fromhex(rr["coeferr"]), float.fromhex(rr["nodeerr"])
         stats["sequence_grids"] = stats.get("sequence_grids", 0) + 1
@@ -349,7 +366,7 @@ def run(res, tier, seed, replay_script=None):
         "samples": [scripts[c] for c in list(scripts)[:2]],
         "programs": len(cases), "traces_validated_against_impl": stats["local_grids"], "disagreements_checked": len(mism),
         "family_distribution": fam_count, "max_relative_error_by_family": stats["max_err"], "tolerance_by_family": TOL,
-        "local_grids_modelled": stats["local_grids"], "sequence_grids_modelled": stats.get("sequence_grids", 0), "local_grids_skipped_parent_incomplete": stats["skipped_incomplete"],
+        "local_grids_modelled": stats["local_grids"], "sequence_grids_modelled": stats.get("sequence_grids", 0), "standard_grids_compared_with_std_grid_model": stats.get("standard_grids", 0), "local_grids_skipped_parent_incomplete": stats["skipped_incomplete"],
         "direct_property_violations": stats["violations"],
     })
     res.assumptions = ["floating-point rounding enters only through the tolerances (relative to max(1, max|value|))",
